@@ -536,7 +536,7 @@ func initColliders() {
 	})
 }
 
-const nKinds = 8
+const nKinds = 9
 
 // blockKind returns the receipts (lists of logs) of a block of the given kind.
 func blockKind(kind int) [][]mlog {
@@ -571,6 +571,8 @@ func blockKind(kind int) [][]mlog {
 			{addr: A[0], topics: collT[0]}, {addr: addrC, topics: collT[1]},
 			{addr: addrC, topics: collX}, {addr: addrC, topics: collU},
 		}}
+	case 8: // a matching log in a block that lacks one of the three topics altogether (no T1 anywhere)
+		return [][]mlog{{{addr: A[0], topics: []common.Hash{T[0], T[2]}}}}
 	}
 	panic("kind")
 }
